@@ -125,7 +125,8 @@ package phantoms
 // (result shape as registration ingest uses it: assumed clause - the legacy selection routines are not under contract;
 // address well-formedness per subnet is verified on the functions above under C14)
 // C07 "names a known ClientConf generation": a generation the station has no subnets for yields no phantom
-//@   ensures @C07: old(!(generation in p.Networks) || p.Networks[generation] == nil) ==> result1 != nil && result0 == nil
+// (C14 "... or selection fails with an error": the same clause - a generation that was removed leaves a nil entry behind)
+//@   ensures @C07 @C14: old(!(generation in p.Networks) || p.Networks[generation] == nil) ==> result1 != nil && result0 == nil
 //@   ensures @DET: result1 == nil ==> result0 != nil && result0.ip != nil
 //@   assigns nothing
 
@@ -156,6 +157,11 @@ package phantoms
 //@   requires sc != nil
 //@   ensures @C14 @C01: true
 //@   assigns nothing
+// C14 "... or selection fails with an error": no configuration (all-zero weights, no groups) makes the legacy chooser
+// panic - in particular the chooser is used only when its construction succeeded (a dropped construction error leaves a
+// nil chooser, and drawing from it is a nil dereference)
+//@   atcall NewChooser after: snap chooserErr := res1
+//@   atcall PickSource before: assert @C14: defined(chooserErr) && chooserErr == nil
 //@ loop 1:
 //@   invariant sc != nil && fresh(choices)
 //@ loop 2:
